@@ -586,6 +586,50 @@ struct Scenario {
     /// handlers are tokio tasks on a multi-thread runtime, sub-tasks are spawned tasks
     #[serde(default)]
     tokio: bool,
+    /// perturb only the point between the destination lookup and the append inside try_append
+    /// (delaying the queue's own points slows the shutdown down more than it widens that window)
+    #[serde(default)]
+    lookup_permille: u32,
+    #[serde(default)]
+    lookup_max_us: u32,
+}
+
+static LOOKUP_PERMILLE: std::sync::atomic::AtomicU32 = std::sync::atomic::AtomicU32::new(0);
+static LOOKUP_MAX_US: std::sync::atomic::AtomicU32 = std::sync::atomic::AtomicU32::new(0);
+static LOOKUP_SEED: std::sync::atomic::AtomicU64 = std::sync::atomic::AtomicU64::new(0);
+thread_local! { static LOOKUP_RNG: std::cell::Cell<u64> = const { std::cell::Cell::new(0) }; }
+
+/// The hook of this driver: the cooperative controller's perturbation, or the lookup-only delay
+fn install_hook() {
+    let _ = sched::controller(); // installs its own hook; replaced by the one below, which delegates to it
+    metrique_writer_core::verif::install(Some(Arc::new(|name, args| {
+        let permille = LOOKUP_PERMILLE.load(Ordering::Relaxed);
+        if permille == 0 {
+            sched::point(name, args);
+            return;
+        }
+        if name != "gs.lookup" {
+            return;
+        }
+        let r = LOOKUP_RNG.with(|c| {
+            let mut x = c.get();
+            if x == 0 {
+                use std::hash::{Hash, Hasher};
+                let mut h = std::collections::hash_map::DefaultHasher::new();
+                std::thread::current().id().hash(&mut h);
+                x = (LOOKUP_SEED.load(Ordering::Relaxed) ^ h.finish()) | 1;
+            }
+            x ^= x << 13;
+            x ^= x >> 7;
+            x ^= x << 17;
+            c.set(x);
+            x
+        });
+        if (r % 1000) < permille as u64 {
+            let us = (r >> 24) % (LOOKUP_MAX_US.load(Ordering::Relaxed).max(1) as u64);
+            std::thread::sleep(Duration::from_micros(us));
+        }
+    })));
 }
 
 const MODES: [&str; 5] = ["try", "guard", "fg", "wait", "disc"];
@@ -624,11 +668,14 @@ fn run_scenario(sc: &Scenario) -> bool {
     let total: u64 = sc.handlers.iter().map(|h| h.n).sum();
     let cap = (total + 8) as usize;
     trace::ev(json!({"ev": "Reset", "cap": cap as i64, "scenario": sc.id as i64}));
-    if sc.permille > 0 {
+    if sc.permille > 0 && sc.lookup_permille == 0 {
         ctrl.begin_perturb(sc.seed, sc.permille, sc.max_us, false);
     } else {
         ctrl.free_run();
     }
+    LOOKUP_SEED.store(sc.seed, Ordering::Relaxed);
+    LOOKUP_MAX_US.store(sc.lookup_max_us, Ordering::Relaxed);
+    LOOKUP_PERMILLE.store(sc.lookup_permille, Ordering::Relaxed);
     let (q, h) = build_queue(cap, sc.flush_us, sc.short, format!("svcw-{}", sc.id), OutLog::default());
     let qc = q.clone();
     let nh = sc.handlers.len();
@@ -755,11 +802,13 @@ fn run_scenario(sc: &Scenario) -> bool {
         trace::evi("Quiesce", &[]);
     }
     ctrl.free_run();
+    LOOKUP_PERMILLE.store(0, Ordering::Relaxed);
     ok
 }
 
 fn cmd_run(a: &HashMap<String, String>) {
     std::panic::set_hook(Box::new(|_| {}));
+    install_hook();
     let scen = util::read_ndjson(util::arg_str(a, "scenarios", ""));
     let mut out = std::io::BufWriter::new(std::fs::File::create(util::arg_str(a, "out", "")).unwrap());
     let mut meta = std::io::BufWriter::new(std::fs::File::create(util::arg_str(a, "meta", "")).unwrap());
